@@ -578,13 +578,10 @@ def r6_relurl_plain_text(ctx, rep):
     for n in ast.walk(fn):
         for c in ast.iter_child_nodes(n):
             parents[c] = n
-    rel = [c for c in py.walk_calls(fn) if call_name(c).endswith("relpath")]
-    if len(rel) != 1 or not isinstance(rel[0].args[0], ast.Name):
-        raise AnalysisError("relative_url: the os.path.relpath(<var>, ...) call was not found")
-    var = rel[0].args[0].id
-    ev = astq.trace(fn)
-    assigns = [e for e in ev if e.kind == "assign" and e.target == var and e.value is not None
-               and not (isinstance(e.value, ast.Constant) and e.value.value is None)]
+    from . import c09
+    fn, ev, arg, assigns = c09.relurl_replaced_sources(py)
+    var = ast.unparse(arg)
+    assigns = [e for e in assigns if e.kind == "assign"]
     if not assigns:
         raise AnalysisError(f"relative_url: no assignment to {var}")
     # the element found by the HTML search: what `.find("a", ...)` is bound to
@@ -872,6 +869,31 @@ def r14_selector_slots(ctx, rep):
     c01.r5_character_slots(ctx, rep)
 
 
+ARRAY_SPEC_KEYWORDS = {"dimension", "allocatable", "pointer", "target", "codimension", "contiguous", "volatile", "asynchronous",
+                       "save", "protected", "value", "optional"}
+
+
+def r15_array_spec_attributes(ctx, rep):
+    """An attribute given in a statement of its own arrives as text: `allocatable(:)` (from `allocatable :: x(:)`), but also
+    `bind(c,name='n')`, `intent(in)`, `codimension[*]`.  Only for the attributes that can carry an array specification may the
+    parenthesised part be split off as the variable's dimension; taking every `word(...)` for one shows `bind` as an attribute
+    and `(c,name='n')` as the shape.  The branch that stores `<var>.dimension` from attribute text therefore tests the keyword."""
+    py = ctx.py
+    fn = py.func("FortranCodeUnit.process_attribs")
+    ev = astq.trace(fn)
+    stores = [e for e in ev if e.kind == "assign" and e.target and e.target.endswith(".dimension") and e.value is not None]
+    if not stores:
+        raise AnalysisError("process_attribs: no assignment to <var>.dimension")
+    for e in stores:
+        words = {c.value for t, pol, _s in e.conds if pol for c in ast.walk(t)
+                 if isinstance(c, ast.Constant) and isinstance(c.value, str) and c.value.strip("( ").lower() in ARRAY_SPEC_KEYWORDS}
+        ok = bool(words)
+        rep.ob(f"process_attribs: `{e.text()[:50]}` only for attributes that take an array specification", ok,
+               f"restricted to {sorted(words)}" if ok else
+               f"every attribute of the form `word(...)` is split into an attribute and a dimension ({e.cond_texts()[-2:]}): "
+               f"`bind(c,name='n') :: z` documents z with the attribute `bind` and the shape `(c,name='n')`", py.nloc(e.node))
+
+
 RULES = [
     RuleSpec("C18.R5", r5_selector_regexes, "kind/len selector regexes capture the whole expression", floor=2),
     RuleSpec("C18.R4", r4_literals_and_argument_attributes, "literal case is preserved; argument attributes are complete", floor=3),
@@ -888,4 +910,5 @@ RULES = [
     RuleSpec("C18.R12", r12_sub_templates, "restored literals survive the replacement template (shared with C02.R9)", floor=5),
     RuleSpec("C18.R13", r13_restoration_cursor, "the restoring loop advances past what it inserted (shared with C20.R4)", floor=2),
     RuleSpec("C18.R14", r14_selector_slots, "character selector slots are filled at most once (shared with C01.R5)", floor=2),
+    RuleSpec("C18.R15", r15_array_spec_attributes, "only array-spec attributes are split into attribute and dimension", floor=1),
 ]
